@@ -179,6 +179,7 @@ def oracles(ctx, pyhf, code, a0=1.0, ntrip=30):
 
 
 def run(ctx):
+    ctx.assumptions.append('translator (harness/symexec.py + gen_interp.py): symbolic execution of the running interpolator code — CPython evaluation of the code under test, numpy object-dtype element-wise dispatch, path enumeration and the Lean emitter are trusted; lean/PyhfGen/Interp.lean was regenerated from /repo before the proof gate of this run')
     import pyhf
     rng = ctx.rng
     lean = ctx.lean
